@@ -221,6 +221,12 @@ def classify(parsed):
     return "pass", None
 
 
+try:
+    _PEAKS = json.load(open(os.path.join(VERIF, "vlib", "peaks.json")))
+except Exception:
+    _PEAKS = {}
+
+
 class Harness:
     def __init__(self, name, unwind, feature="on", timeout=900, mem_gb=12, loops=None,
                  desc="", bounds=None, assumptions=None, expect="pass", finding=None,
@@ -242,7 +248,13 @@ class Harness:
         self.stub_exact = stub_exact
         self.fs = fs                  # CBMC --max-field-sensitivity-array-size
         self.bytewise = bytewise      # >0: link vlib/bytewise_mem.c, memcpy/memmove loop bound
-        self.mem_est = mem_est if mem_est is not None else min(mem_gb, 5)  # admission estimate (GB)
+        pk = _PEAKS.get(feature + ":" + name)
+        if mem_est is not None:
+            self.mem_est = mem_est
+        elif pk:
+            self.mem_est = max(1.0, 1.4 * pk["rss_gb"] + 0.5)   # measured peak RSS of a decided run
+        else:
+            self.mem_est = min(mem_gb, 10)                      # never measured: assume heavy
 
     @property
     def key(self):
